@@ -446,7 +446,7 @@ func runScript(sc *Script) *Outcome {
 		nreqCall := srv.nreq - nreqBefore
 		srv.mu.Unlock()
 		if lim := (nreqCall+2)*int(rt.Milliseconds()) + 1000; ms > lim && sc.ConcAt == 0 {
-			r.viol("call-returns", "call-slow:"+call.Api,
+			r.viol("call-returns", "call-blocked:"+call.Api,
 				fmt.Sprintf("%s took %d ms with %d requests on the wire (ReadTimeout=WriteTimeout=%v, allowed %d ms)", call.Api, ms, nreqCall, rt, lim))
 		}
 		if co.desc != nil {
@@ -473,6 +473,31 @@ func runScript(sc *Script) *Outcome {
 			}
 		}
 		cr.Quiesced = r.quiesce()
+		// a failure of the wait itself (request timeout, a request of the server that is not handled, a
+		// frame that is not expected) and a connection the server hung up terminate the client: Wait()
+		// must return that failure promptly, so that the next call reports it at once
+		fatalCls := cr.Class == "timeout" || cr.Class == "unhandledMethod" || cr.Class == "unexpectedFrame" ||
+			cr.Class == "tcpTimeout" || cr.Class == "udpTimeout"
+		srv.mu.Lock()
+		lostConn := int(srv.hungUp.Load()) == srv.nconn && srv.nconn > 0
+		srv.mu.Unlock()
+		if (fatalCls || lostConn) && sc.ConcAt == 0 {
+			select {
+			case <-r.waited:
+				if fatalCls && classify(r.waitErr) != cr.Class {
+					r.viol("failure-reported", "failure-not-latched:"+cr.Class,
+						fmt.Sprintf("%s failed with %s but Wait() returned %s", call.Api, cr.Class, classify(r.waitErr)))
+				}
+			case <-time.After(rt + 1500*time.Millisecond):
+				what := cr.Class
+				if !fatalCls {
+					what = "connection-closed"
+				}
+				r.viol("failure-reported", "failure-not-latched:"+what,
+					fmt.Sprintf("%s returned %s (server closed the connection: %v) but the client did not terminate: Wait() still blocks after %v; the next call would wait again instead of reporting the failure",
+						call.Api, cr.Class, lostConn, rt+1500*time.Millisecond))
+			}
+		}
 		r.snapshot(&cr)
 		if closedBefore {
 			// the failure must be reported, at once
